@@ -146,6 +146,23 @@ def run(m: Model, r: Report, tier: str) -> None:
         v = m.try_fold(f.module, lim) if lim is not None else None
         r.check(bool(opens) and (lim is None or (isinstance(v, int) and v >= 2 * 4095 + 2)), "R5", f"{q}#stream-limit", f"client stream limit {v}", loc=f.loc)
 
+    # the writer refuses no message up to the UDS maximum: explicit raises in write() guarded by the payload are evaluated for the boundary lengths
+    from sa.util import path_condition as _pc19
+    from sa import miniterp as _mt19
+    dpar = next((p_ for p_ in cw.params() if p_ == "data"), None)
+    if dpar is None:
+        raise AnalysisError(f"{cw.qualname}: data parameter not found")
+    refused = []
+    for rs in [n for n in walk_no_nested(cw.node) if isinstance(n, ast.Raise)]:
+        conds = [(t, pol) for t, pol in _pc19(cw.node, rs) if {x.id for x in ast.walk(t) if isinstance(x, ast.Name)} - {"len", "bytes", "bool"} == {dpar}]
+        if not conds:
+            continue
+        for ln in (1, 2, 4094, 4095):
+            if all(bool(_mt19.eval_expr(t, {dpar: bytes(ln)})) == pol for t, pol in conds):
+                refused.append(f"{ln} bytes (line {rs.lineno})")
+    r.check(not refused, "R5", f"{cw.qualname}#refuses-nothing", f"write() raises for messages of {refused}: every message up to the UDS maximum of 4095 bytes must be written "
+            "(a refused message is a gap in the delivered sequence)", loc=cw.loc)
+
     r.assumptions += ["asyncio.StreamReader.readline is cancel-safe (a cancelled readline leaves the buffer intact) and returns b'' at EOF",
                       "hexlify output alphabet is [0-9a-f]"]
     r.not_decided += ["stream segmentation / coalescing (asyncio's contract)"]
